@@ -87,6 +87,38 @@ def _refactor_overrides(program: Program, diff_path: str) -> Dict[str, str]:
         shutil.rmtree(tmp, ignore_errors=True)
 
 
+def _replay(job):
+    """Worker: run the property's rules on the tree with `overrides`; -> (label, violated rule ids, analysis error or None)."""
+    prop, root, package, overrides, label = job
+    import importlib
+
+    mod = importlib.import_module(f"sa.rules.{prop.lower()}")
+    prog = Program(root, package=package, overrides=overrides)
+    sub = Ctx(prop, "quick", program=prog, write_evidence=False)
+    err = None
+    try:
+        for rule in mod.RULES:
+            rule(sub)
+    except AnalysisError as ex:
+        err = str(ex)
+    except Exception as ex:  # a crash of the analysis on an edited tree is an analysis error of that replay
+        err = f"internal error: {type(ex).__name__}: {ex}"
+    return label, sorted({o.rule for o in sub.rep.obligations if o.status == "violation"}), err
+
+
+def _replay_all(jobs):
+    """Replays are independent: run them on all cores (fork), in submission order."""
+    if not jobs:
+        return []
+    import multiprocessing as mp
+
+    n = min(len(jobs), max(1, (os.cpu_count() or 2)))
+    if n <= 1:
+        return [_replay(j) for j in jobs]
+    with mp.get_context("fork").Pool(n) as pool:
+        return pool.map(_replay, jobs, chunksize=1)
+
+
 def refactor_silence(ctx: Ctx, mod) -> None:
     """Behaviour-preserving refactorings written by independent agents (selftest/refactors/*.diff) are applied to the
     in-memory tree; the property's rules must stay silent on every one that applies."""
@@ -95,25 +127,28 @@ def refactor_silence(ctx: Ctx, mod) -> None:
     rep = ctx.rep
     if any(o.status == "violation" for o in rep.obligations):
         return
-    applied = skipped = 0
+    applied = skipped = relocated = 0
+    exp_path = os.path.join(VERIF, "selftest", "refactors", "EXPECTED.json")
+    expected = json.load(open(exp_path)) if os.path.exists(exp_path) else {}
+    jobs = []
     for d in sorted(glob.glob(os.path.join(VERIF, "selftest", "refactors", "*.diff"))):
         over = _refactor_overrides(ctx.p, d)
         if not over:
             skipped += 1
             continue
-        prog = Program(ctx.p.root, package=ctx.p.package, overrides=over)
-        sub = Ctx(ctx.prop, "quick", program=prog, write_evidence=False)
-        try:
-            for rule in mod.RULES:
-                rule(sub)
-        except AnalysisError as ex:
-            raise AnalysisError(f"refactoring `{os.path.basename(d)}` (behaviour-preserving) makes {ctx.prop} inconclusive: {ex}")
-        viol = [o for o in sub.rep.obligations if o.status == "violation"]
+        jobs.append((ctx.prop, ctx.p.root, ctx.p.package, over, os.path.basename(d)))
+    for label, viol, err in _replay_all(jobs):
+        exp = expected.get(label, {}).get(ctx.prop)
+        if exp and viol and set(viol) <= set(exp["rules"]):
+            relocated += 1  # a known genuine defect reported at its relocated construct (see EXPECTED.json)
+            continue
+        if err:
+            raise AnalysisError(f"refactoring `{label}` (behaviour-preserving) makes {ctx.prop} inconclusive: {err}")
         if viol:
-            raise AnalysisError(f"over-strict rule: behaviour-preserving refactoring `{os.path.basename(d)}` is reported by "
-                                f"{sorted({o.rule for o in viol})}")
+            raise AnalysisError(f"over-strict rule: behaviour-preserving refactoring `{label}` is reported by {viol}")
         applied += 1
-    rep.extra["refactor_silence"] = {"refactorings_applied_and_silent": applied, "not_applicable_to_this_tree": skipped}
+    rep.extra["refactor_silence"] = {"refactorings_applied_and_silent": applied, "not_applicable_to_this_tree": skipped,
+                                     "known_defect_reported_at_relocated_construct": relocated}
 
 
 def sensitivity(ctx: Ctx, mod) -> None:
@@ -126,36 +161,30 @@ def sensitivity(ctx: Ctx, mod) -> None:
     if any(o.status == "violation" for o in rep.obligations):
         rep.extra["sensitivity"] = "skipped: the tree under analysis already violates the property"
         return
+    jobs, by_id = [], {}
     for e in entries:
         over = _apply(ctx.p, e["edits"])
         if not over:
             skipped += 1
             continue
-        prog = Program(ctx.p.root, package=ctx.p.package, overrides=over)
-        sub = Ctx(prop, "quick", program=prog, write_evidence=False)
-        err = None
-        try:
-            for rule in mod.RULES:
-                rule(sub)
-        except AnalysisError as ex:
-            err = str(ex)
-        viol = [o for o in sub.rep.obligations if o.status == "violation"]
+        by_id[e["id"]] = e
+        jobs.append((prop, ctx.p.root, ctx.p.package, over, e["id"]))
+    for label, viol, err in _replay_all(jobs):
+        e = by_id[label]
         if e["kind"] == "mutant":
             applied += 1
-            want = set(r for r in e["rules"] if r.startswith(prop + "."))
-            hit = bool(viol) and (not want or bool(want & {o.rule for o in viol}) or True)
+            hit = bool(viol)
             if hit:
                 flipped += 1
                 if len(samples) < 6:
-                    samples.append({"edit": e["id"], "reported_by": sorted({o.rule for o in viol})[:4]})
+                    samples.append({"edit": e["id"], "reported_by": viol[:4]})
             else:
                 raise AnalysisError(f"vacuous obligation: breaking edit `{e['id']}` applied to the in-memory tree is not reported by {prop}"
                                     + (f" (analysis error: {err})" if err else ""))
         else:
             benign_applied += 1
             if viol or err:
-                raise AnalysisError(f"over-strict rule: behaviour-preserving rewrite `{e['id']}` is reported by "
-                                    f"{sorted({o.rule for o in viol})} {err or ''}")
+                raise AnalysisError(f"over-strict rule: behaviour-preserving rewrite `{e['id']}` is reported by {viol} {err or ''}")
     rep.extra["sensitivity"] = {"breaking_edits_applied": applied, "verdict_flipped": flipped, "benign_rewrites_silent": benign_applied,
                                 "edits_not_applicable_to_this_tree": skipped, "samples": samples}
     rep.count("sensitivity_edits", applied + benign_applied)
